@@ -1,5 +1,726 @@
-//! stub (replaced below)
+//! L1/L2: one source instruction, rendered under a random spelling, assembled by the
+//! Preprocessor, executed by the Interpreter on a prepared machine, compared with the
+//! machine-level reference model (all registers, all flag bits, all 1 MiB of memory).
+#![allow(dead_code)]
+use crate::asm::*;
 use crate::common::*;
+use crate::emu::*;
+use crate::machine::*;
+use crate::pipeline::*;
+use crate::pt;
+use crate::refmodel::*;
+use emulator_8086_lib::VM;
+use proptest::prelude::*;
+use rayon::prelude::*;
+use serde_json::{json, Value};
+use std::sync::OnceLock;
+
+pub static BG: OnceLock<BgMem> = OnceLock::new();
+pub fn bgmem() -> &'static BgMem {
+    BG.get_or_init(BgMem::new)
+}
+
+/// all bytes that differ from the template, restoring them (chunked compare)
+pub fn diff_vs_template(vm: &mut VM) -> Vec<(u32, u8)> {
+    let t = &bgmem().template;
+    let mut out = Vec::new();
+    const CH: usize = 4096;
+    for c in 0..(MB / CH) {
+        let s = c * CH;
+        if vm.mem[s..s + CH] != t[s..s + CH] {
+            for i in s..s + CH {
+                if vm.mem[i] != t[i] {
+                    out.push((i as u32, vm.mem[i]));
+                    vm.mem[i] = t[i];
+                }
+            }
+        }
+    }
+    out
+}
+
+#[derive(Clone, Copy, Debug, PartialEq, Eq)]
+pub struct Fix {
+    pub off_class: u8,
+    pub phys_class: u8,
+    pub sp_class: u8,
+    pub str_class: u8,
+}
+
+#[derive(Clone, Debug)]
+pub struct Case {
+    pub insn: Insn,
+    pub regs: Regs,
+    pub fix: Fix,
+    pub memval: Option<u16>,
+    pub choices: Vec<u8>,
+    pub label_off: u16,
+}
+
+pub fn regs_s() -> BoxedStrategy<Regs> {
+    let v = proptest::collection::vec(pt::u16s(), 12);
+    (v, pt::flagword())
+        .prop_map(|(v, f)| {
+            let mut r = Regs::default();
+            for i in 0..12 {
+                r.r[i] = v[i];
+            }
+            r.r[FLAGS] = f;
+            r.r[IP] = 0;
+            r
+        })
+        .boxed()
+}
+
+pub fn fix_s() -> BoxedStrategy<Fix> {
+    let cls = |n: u8| prop_oneof![3 => Just(0u8), 2 => 1u8..=n];
+    (cls(4), cls(4), cls(7), cls(6))
+        .prop_map(|(a, b, c, d)| Fix { off_class: a, phys_class: b, sp_class: c, str_class: d })
+        .boxed()
+}
+
+pub fn label_off_s() -> BoxedStrategy<u16> {
+    prop_oneof![
+        3 => proptest::sample::select(vec![0u16, 1, 2, 7, 15, 16, 255, 256, 4095, 32767, 32768, 65533]),
+        1 => 0u16..=65533,
+    ]
+    .boxed()
+}
+
+pub fn case_s(insn: BoxedStrategy<Insn>) -> BoxedStrategy<Case> {
+    (insn, regs_s(), fix_s(), proptest::option::weighted(0.5, pt::u16s()), choices_s(24), label_off_s())
+        .prop_map(|(insn, regs, fix, memval, choices, label_off)| Case { insn, regs, fix, memval, choices, label_off })
+        .boxed()
+}
+
+/// Deterministically adjust the generated registers so that the operand's address sums hit
+/// the boundary classes (offset sum at FFFE/FFFF/0/1, physical address around 2^20, SS:SP
+/// classes, string pointers).
+pub fn fixup(case: &Case) -> Regs {
+    let mut r = case.regs;
+    let insn = &case.insn;
+    let mut seg_idx: Option<usize> = None;
+    let mut cur_off: Option<u16> = None;
+    if let Some((_, m)) = insn.mem_operand() {
+        let target_off: Option<u16> = match case.fix.off_class {
+            1 => Some(0xFFFE),
+            2 => Some(0xFFFF),
+            3 => Some(0x0000),
+            4 => Some(0x0001),
+            _ => None,
+        };
+        let d16 = |d: i32| d as u16;
+        if let Some(t) = target_off {
+            match m.shape {
+                Shape::Direct(_) => {}
+                Shape::Ind(x) => r.r[x.idx()] = t,
+                Shape::Based(x, d) | Shape::Indexed(x, d) => r.r[x.idx()] = t.wrapping_sub(d16(d)),
+                Shape::BasedIdx(b, i, d) => {
+                    r.r[b.idx()] = t.wrapping_sub(r.r[i.idx()]).wrapping_sub(d16(d.unwrap_or(0)))
+                }
+            }
+        }
+        let mach = Machine::new(r);
+        let (_, off) = mach.ea(&m);
+        cur_off = Some(off);
+        seg_idx = Some(match m.seg {
+            Some(s) => s.idx(),
+            None => {
+                if m.uses_bp() {
+                    SS
+                } else {
+                    DS
+                }
+            }
+        });
+    } else if insn.label_operand().is_some() {
+        cur_off = Some(case.label_off);
+        seg_idx = Some(DS);
+    }
+    if let (Some(si), Some(off)) = (seg_idx, cur_off) {
+        let target: Option<u32> = match case.fix.phys_class {
+            1 => Some(0xFFFFE),
+            2 => Some(0xFFFFF),
+            3 => Some(0x100000),
+            4 => Some(0x100001),
+            _ => None,
+        };
+        if let Some(t) = target {
+            // seg*16 + off == t  needs (t - off) % 16 == 0
+            let diff = t as i64 - off as i64;
+            if diff >= 0 && diff % 16 == 0 && diff / 16 <= 0xFFFF {
+                r.r[si] = (diff / 16) as u16;
+            } else if diff >= 0 {
+                // nearest reachable: the physical address is then within 15 of the target
+                let s = (diff / 16).min(0xFFFF);
+                r.r[si] = s as u16;
+            }
+        }
+    }
+    let mn = insn.mn;
+    if matches!(mn, "push" | "pop" | "pushf" | "popf") {
+        match case.fix.sp_class {
+            1 => r.r[SP] = 0,
+            2 => r.r[SP] = 1,
+            3 => r.r[SP] = 0xFFFF,
+            4 => r.r[SP] = 0xFFFE,
+            5 => {
+                r.r[SS] = 0xFFFF;
+                r.r[SP] = 0x000E + (case.regs.r[SP] & 3);
+            }
+            6 => {
+                r.r[SS] = 0xFFFF;
+                r.r[SP] = 0x0010 + (case.regs.r[SP] & 1);
+            }
+            7 => r.r[SS] = 0,
+            _ => {}
+        }
+    }
+    if matches!(mn, "movs" | "lods" | "stos" | "cmps" | "scas") {
+        match case.fix.str_class {
+            1 => {
+                r.r[SI] = 0xFFFF - (case.regs.r[SI] & 3);
+                r.r[DI] = 0xFFFF - (case.regs.r[DI] & 3);
+            }
+            2 => {
+                r.r[SI] = case.regs.r[SI] & 3;
+                r.r[DI] = case.regs.r[DI] & 3;
+            }
+            3 => {
+                r.r[DS] = 0xFFFF;
+                r.r[SI] = 0x000C + (case.regs.r[SI] & 7);
+            }
+            4 => {
+                r.r[ES] = 0xFFFF;
+                r.r[DI] = 0x000C + (case.regs.r[DI] & 7);
+            }
+            5 => {
+                r.r[ES] = r.r[DS];
+            }
+            6 => {
+                // overlapping source and destination ranges
+                r.r[ES] = r.r[DS];
+                r.r[DI] = r.r[SI].wrapping_add((case.regs.r[DI] & 7).wrapping_sub(3));
+            }
+            _ => {}
+        }
+        if insn.prefix.is_some() {
+            // bounded repetition counts (the dedicated C07 check enumerates CX)
+            r.r[CX] = case.regs.r[CX] % 40;
+        }
+    }
+    if mn == "xlat" && case.fix.phys_class != 0 {
+        r.r[DS] = 0xFFFF;
+        r.r[BX] = 0x0010u16.wrapping_sub(case.regs.r[BX] & 0xFF);
+    }
+    r
+}
+
+pub fn source_for(case: &Case) -> (String, Vec<(String, u16)>) {
+    let uses_label = case.insn.label_operand().is_some();
+    let mut src = String::new();
+    let mut labels: Vec<(String, u16)> = Vec::new();
+    if uses_label {
+        if case.label_off > 0 {
+            src.push_str(&format!("db [{}]\n", case.label_off));
+        }
+        src.push_str(&format!("{}: dw 0\n", LBL));
+        labels.push((LBL.to_string(), case.label_off));
+    }
+    let mut ch = Choices::new(case.choices.clone());
+    let text = render_insn(&case.insn, &mut ch, &labels);
+    src.push_str("start: ");
+    src.push_str(&text);
+    src.push('\n');
+    (src, labels)
+}
+
+#[derive(Debug)]
+pub enum Verdict {
+    Pass { nontrivial: bool, classes: Vec<String> },
+    /// assembler refused the (documented) form -- outside the quantifier of the value properties
+    Rejected(String),
+    Known(&'static str),
+    Fail { aspect: String, detail: String, replay: Value },
+}
+
+pub struct Worker {
+    pub vm: VM,
+}
+impl Worker {
+    pub fn new() -> Worker {
+        let mut vm = VM::new();
+        bgmem().fill(&mut vm);
+        Worker { vm }
+    }
+}
+
+fn outcome_matches(exp: &Outcome, obs: &StepOut, asm: &Assembled) -> bool {
+    match (exp, obs) {
+        (Outcome::Next, StepOut::State(St::Next)) => true,
+        (Outcome::Halt, StepOut::State(St::Halt)) => true,
+        (Outcome::Print, StepOut::State(St::Print)) => true,
+        (Outcome::Int(n), StepOut::State(St::Int(m))) => n == m,
+        (Outcome::JmpIdx(i), StepOut::State(St::Jmp(j))) => i == j,
+        (Outcome::JmpLabel(n), StepOut::State(St::Jmp(j))) => asm.code_label(n) == Some(*j),
+        (Outcome::JmpProc(n), StepOut::State(St::Jmp(j))) => asm.ictx.fn_map.get(n) == Some(j),
+        (Outcome::Error, StepOut::Err(e)) => !e.contains("Internal Error") && !e.contains("Unrecognized token"),
+        _ => false,
+    }
+}
+
+/// compare one Expect with the observation; None = matches, Some(aspect, detail) otherwise
+pub fn compare(
+    e: &Expect,
+    obs_regs: &Regs,
+    obs_out: &StepOut,
+    obs_mem: &[(u32, u8)],
+    obs_stack: &[usize],
+    asm: &Assembled,
+) -> Option<(String, String)> {
+    if !outcome_matches(&e.outcome, obs_out, asm) {
+        return Some(("outcome".into(), format!("expected {:?} observed {:?}", e.outcome, obs_out)));
+    }
+    for i in 0..14 {
+        if i == FLAGS || i == IP {
+            continue;
+        }
+        if e.dc_regs & (1 << i) != 0 {
+            continue;
+        }
+        if e.regs.r[i] != obs_regs.r[i] {
+            return Some((
+                format!("reg-{}", REG_NAMES[i]),
+                format!("{} expected {:04X} observed {:04X}", REG_NAMES[i], e.regs.r[i], obs_regs.r[i]),
+            ));
+        }
+    }
+    let fd = (e.regs.r[FLAGS] ^ obs_regs.r[FLAGS]) & !e.undef_flags;
+    if fd != 0 {
+        let mut names = Vec::new();
+        for (m, n) in crate::l0::FLAG_BITS {
+            if fd & m != 0 {
+                names.push(n);
+            }
+        }
+        if fd & !STATUS != 0 {
+            names.push("nonstatus");
+        }
+        return Some((
+            format!("flags-{}", names.join("+")),
+            format!("flags expected {:04X} observed {:04X} (undefined {:04X})", e.regs.r[FLAGS], obs_regs.r[FLAGS], e.undef_flags),
+        ));
+    }
+    let want = e.mem.final_diff();
+    if want.as_slice() != obs_mem {
+        let mut d = String::new();
+        let mut n = 0;
+        for (a, v) in &want {
+            match obs_mem.iter().find(|(x, _)| x == a) {
+                Some((_, o)) if o == v => {}
+                Some((_, o)) => {
+                    if n < 4 {
+                        d.push_str(&format!("[{:05X}] expected {:02X} observed {:02X}; ", a, v, o));
+                    }
+                    n += 1;
+                }
+                None => {
+                    if n < 4 {
+                        d.push_str(&format!("[{:05X}] expected {:02X} observed {:02X} (unchanged); ", a, v, bg(*a as usize)));
+                    }
+                    n += 1;
+                }
+            }
+        }
+        for (a, o) in obs_mem {
+            if !want.iter().any(|(x, _)| x == a) {
+                if n < 4 {
+                    d.push_str(&format!("[{:05X}] expected {:02X} (untouched) observed {:02X}; ", a, bg(*a as usize), o));
+                }
+                n += 1;
+            }
+        }
+        return Some(("memory".into(), format!("{} byte(s) differ: {}", n, d)));
+    }
+    if e.call_stack.as_slice() != obs_stack {
+        return Some(("call-stack".into(), format!("expected {:?} observed {:?}", e.call_stack, obs_stack)));
+    }
+    None
+}
+
+fn expect_json(e: &Expect) -> Value {
+    json!({
+        "regs": e.regs.to_json(),
+        "undef_flags": e.undef_flags,
+        "dc_regs": e.dc_regs,
+        "mem": e.mem.final_diff().iter().map(|(a,v)| json!([a,v])).collect::<Vec<_>>(),
+        "outcome": format!("{:?}", e.outcome),
+        "call_stack": e.call_stack,
+    })
+}
+
+/// Run one case. `call_stack` = interpreter call stack before the instruction.
+pub fn run_case(wk: &mut Worker, case: &Case, openq: &Quirks, call_stack: &[usize]) -> Verdict {
+    let regs = fixup(case);
+    let (src, labels) = source_for(case);
+    let mut asm = match assemble(&src) {
+        Ok(a) => a,
+        Err(e) => {
+            if e.starts_with("PANIC") {
+                return Verdict::Fail {
+                    aspect: "assembler-panic".into(),
+                    detail: format!("{} on {:?}", e, src),
+                    replay: json!({"kind":"l1","source":src,"pre_regs":regs.to_json(),"pre_mem":[],"accept":[],"insn":canonical(&case.insn),"call_stack":call_stack}),
+                };
+            }
+            return Verdict::Rejected(e);
+        }
+    };
+    let start = match asm.code_label("start") {
+        Some(s) => s,
+        None => return Verdict::Rejected("no start".into()),
+    };
+    if asm.code.len() != start + 1 {
+        return Verdict::Fail {
+            aspect: "emitted-count".into(),
+            detail: format!("one source instruction produced {:?}", asm.code),
+            replay: json!({"kind":"l1","source":src,"pre_regs":regs.to_json(),"pre_mem":[],"accept":[],"insn":canonical(&case.insn),"call_stack":call_stack}),
+        };
+    }
+    let line = asm.code[start].clone();
+    // model
+    let mut mach = Machine::new(regs);
+    mach.call_stack = call_stack.to_vec();
+    let env = Env { data_labels: &labels, current: start, string_straddle_both: true };
+    // optional value at the (reference) operand address
+    let mut pre: Vec<(u32, u8)> = Vec::new();
+    if let Some(v) = case.memval {
+        let addr = if let Some((_, m)) = case.insn.mem_operand() {
+            Some(mach.ea_phys(&m))
+        } else if let Some((_, n)) = case.insn.label_operand() {
+            Some(mach.label_phys(&env, n))
+        } else {
+            None
+        };
+        if let Some(a) = addr {
+            pre.push((a & 0xFFFFF, v as u8));
+            pre.push(((a + 1) & 0xFFFFF, (v >> 8) as u8));
+        }
+    }
+    mach.mem.pre = pre.clone();
+    let accept = mach.exec(&case.insn, &env, &Quirks::none());
+    // implementation
+    load(&mut wk.vm, &regs);
+    for (a, v) in &pre {
+        wk.vm.mem[*a as usize] = *v;
+    }
+    asm.ictx.call_stack = call_stack.to_vec();
+    let cap = regs.r[CX] as u32 + 2;
+    let mut iters = 0u32;
+    let mut out;
+    loop {
+        out = step(&mut wk.vm, &mut asm.ictx, start, &line);
+        iters += 1;
+        if out != StepOut::State(St::Repeat) {
+            break;
+        }
+        if iters > cap {
+            break;
+        }
+    }
+    let obs_regs = snap(&wk.vm);
+    let obs_mem = diff_vs_template(&mut wk.vm);
+    let obs_stack = asm.ictx.call_stack.clone();
+    let replay = |accept: &Vec<Expect>| {
+        json!({"kind":"l1","source":src,"line":line,"insn":canonical(&case.insn),"pre_regs":regs.to_json(),
+            "pre_mem":pre.iter().map(|(a,v)| json!([a,v])).collect::<Vec<_>>(),
+            "accept":accept.iter().map(expect_json).collect::<Vec<_>>(),"call_stack":call_stack})
+    };
+    if out == StepOut::State(St::Repeat) {
+        return Verdict::Fail {
+            aspect: "repeat-runaway".into(),
+            detail: format!("'{}' still REPEAT after CX+2 = {} steps", line, cap),
+            replay: replay(&accept),
+        };
+    }
+    if let StepOut::Panic(p) = &out {
+        return Verdict::Fail { aspect: "panic".into(), detail: format!("'{}' panicked: {}", line, panic_class(p)), replay: replay(&accept) };
+    }
+    let mut first: Option<(String, String)> = None;
+    for e in &accept {
+        match compare(e, &obs_regs, &out, &obs_mem, &obs_stack, &asm) {
+            None => {
+                // classes / non-triviality
+                let mut classes = vec![format!("form/{}/{}", case.insn.mn, case.insn.form())];
+                let mut nt = false;
+                if let Some((w, m)) = case.insn.mem_operand() {
+                    nt = true;
+                    let (seg, off) = Machine::new(regs).ea(&m);
+                    classes.push(format!("shape/{}", m.shape_name()));
+                    classes.push(format!("override/{}", m.seg.map(|s| s.name()).unwrap_or("none")));
+                    let lin = seg as u32 * 16 + off as u32;
+                    if lin >= 0x100000 {
+                        classes.push("ea/phys-wrap".into());
+                    }
+                    if lin & 0xFFFFF == 0xFFFFF && w == W::W {
+                        classes.push("ea/word-straddles-2^20".into());
+                    }
+                    if off >= 0xFFFE {
+                        classes.push("ea/offset-top".into());
+                    }
+                    if m.uses_bp() && m.seg.is_none() && regs.r[SS] != regs.r[DS] {
+                        classes.push("ea/bp-default-ss".into());
+                    }
+                    if let Some(d) = m.disp() {
+                        if d < 0 {
+                            classes.push("ea/negative-disp".into());
+                        }
+                    }
+                }
+                if case.insn.label_operand().is_some() {
+                    nt = true;
+                    classes.push("operand/label".into());
+                }
+                let fl = e.regs.r[FLAGS] ^ regs.r[FLAGS];
+                if fl & (CF | OF | AF | ZF) != 0 {
+                    nt = true;
+                }
+                return Verdict::Pass { nontrivial: nt, classes };
+            }
+            Some(d) => {
+                if first.is_none() {
+                    first = Some(d);
+                }
+            }
+        }
+    }
+    // not in the accept set: attributable to an open quirk?
+    if openq.any() {
+        if let Some(k) = quirk_key_for_insn(&case.insn) {
+            let acc2 = mach.exec(&case.insn, &env, openq);
+            if acc2.iter().any(|e| compare(e, &obs_regs, &out, &obs_mem, &obs_stack, &asm).is_none()) {
+                return Verdict::Known(k);
+            }
+        }
+    }
+    let (aspect, detail) = first.unwrap_or(("none".into(), "empty accept set".into()));
+    if let StepOut::Err(e) = &out {
+        return Verdict::Fail {
+            aspect: "interp-reject".into(),
+            detail: format!("interpreter refused emitted line '{}': {}", line, e.lines().next().unwrap_or("")),
+            replay: replay(&accept),
+        };
+    }
+    Verdict::Fail { aspect, detail: format!("'{}' (source {:?}): {}", line, src, detail), replay: replay(&accept) }
+}
+
 #[derive(Clone, Copy, PartialEq, Eq, Debug)]
-pub enum FormSet { Arith, Logic, MulDiv }
-pub fn run_forms(_ctx: &Ctx, _set: FormSet) {}
+pub enum FormSet {
+    Arith,
+    Logic,
+    MulDiv,
+    Addressing,
+    Transfer,
+    Strings,
+}
+
+pub fn insn_strategy(set: FormSet) -> BoxedStrategy<Insn> {
+    match set {
+        FormSet::Arith => prop_oneof![
+            4 => two_operand_forms(vec!["add", "adc", "sub", "sbb", "cmp"], true),
+            2 => one_operand_forms(vec!["inc", "dec", "neg"]),
+        ]
+        .boxed(),
+        FormSet::Logic => prop_oneof![
+            3 => two_operand_forms(vec!["and", "or", "xor", "test"], false),
+            1 => one_operand_forms(vec!["not"]),
+            4 => shift_forms(),
+        ]
+        .boxed(),
+        FormSet::MulDiv => prop_oneof![
+            4 => one_operand_forms(vec!["mul", "imul", "div", "idiv"]),
+            2 => singleton(vec!["aaa", "aas", "daa", "das", "aam", "aad", "cbw", "cwd"]),
+        ]
+        .boxed(),
+        FormSet::Addressing => prop_oneof![
+            3 => mov_forms(),
+            2 => lea_forms(),
+            2 => two_operand_forms(vec!["add", "sub", "xor", "or"], false),
+            1 => one_operand_forms(vec!["not"]),
+            1 => xchg_forms(),
+        ]
+        .boxed(),
+        FormSet::Transfer => prop_oneof![
+            4 => mov_forms(),
+            3 => xchg_forms(),
+            4 => push_pop_forms(),
+            1 => singleton(vec!["lahf", "sahf", "xlat"]),
+        ]
+        .boxed(),
+        FormSet::Strings => string_forms(),
+    }
+}
+
+/// run a form set under proptest in 16 shards; failures are shrunk and reported
+pub fn run_forms(ctx: &Ctx, set: FormSet) {
+    let cases_total: u32 = ctx.tier.pick(48_000, 1_600_000);
+    run_forms_n(ctx, set, cases_total, &format!("{:?}", set));
+}
+
+pub fn run_forms_n(ctx: &Ctx, set: FormSet, cases_total: u32, tag: &str) {
+    let openq = Quirks::from_keys(|k| ctx.quirk_open(k));
+    let shards = 16u32;
+    let results: Vec<(Local, u64, Option<(Case, String)>)> = (0..shards)
+        .into_par_iter()
+        .map(|sh| {
+            let wk = std::cell::RefCell::new(Worker::new());
+            let local = std::cell::RefCell::new(Local::default());
+            let rejected = std::cell::Cell::new(0u64);
+            let strat = case_s(insn_strategy(set));
+            let r = pt::run(ctx.sub_seed(tag, sh as u64), cases_total / shards, &strat, |case, counting| {
+                let v = run_case(&mut wk.borrow_mut(), case, &openq, &[]);
+                let mut l = local.borrow_mut();
+                match v {
+                    Verdict::Pass { nontrivial, classes } => {
+                        if counting {
+                            l.evals += 1;
+                            for c in classes {
+                                l.class(&c);
+                            }
+                            if nontrivial {
+                                let (src, _) = source_for(case);
+                                l.digests.push(fnv_str(&src) ^ fnv64(&case.regs.r.iter().flat_map(|x| x.to_le_bytes()).collect::<Vec<u8>>()));
+                            }
+                        }
+                        Ok(())
+                    }
+                    Verdict::Rejected(_) => {
+                        if counting {
+                            l.evals += 1;
+                            rejected.set(rejected.get() + 1);
+                            l.class(&format!("assembler-rejected/{}/{}", case.insn.mn, case.insn.form()));
+                        }
+                        Ok(())
+                    }
+                    Verdict::Known(k) => {
+                        if counting {
+                            l.evals += 1;
+                            l.known(k);
+                        }
+                        Ok(())
+                    }
+                    Verdict::Fail { aspect, detail, .. } => Err(format!("{}|{}", aspect, detail)),
+                }
+            });
+            (local.into_inner(), rejected.get(), r)
+        })
+        .collect();
+    let mut total = 0u64;
+    let mut rej = 0u64;
+    for (sh, (l, rj, fail)) in results.into_iter().enumerate() {
+        total += l.evals;
+        rej += rj;
+        // only the owner property prints KNOWN-FINDING lines; others count under excluded
+        l.merge_into(ctx);
+        if let Some((case, _why)) = fail {
+            // re-run the shrunk case to get the structured verdict
+            let mut wk = Worker::new();
+            if let Verdict::Fail { aspect, detail, replay } = run_case(&mut wk, &case, &openq, &[]) {
+                ctx.fail(Failure {
+                    key: format!("l1|{}|{}|{}", case.insn.mn, case.insn.form(), aspect),
+                    what: format!("[{} shard {}] {} {}: {}", tag, sh, canonical(&case.insn), aspect, detail),
+                    replay,
+                });
+            }
+        }
+    }
+    ctx.class(&format!("l1/{}/cases", tag), total);
+    ctx.class(&format!("l1/{}/assembler-rejected", tag), rej);
+    if total > 0 && rej * 4 > total {
+        ctx.harness_error(&format!("{}: {} of {} generated forms were rejected by the assembler (generator unsound?)", tag, rej, total));
+    }
+    // sample
+    let strat = case_s(insn_strategy(set));
+    let ex = pt::generate(ctx.sub_seed(tag, 999), 3, &strat);
+    for c in ex {
+        let (src, _) = source_for(&c);
+        ctx.sample(json!({"kind":"l1","set":tag,"source":src,"regs":fixup(&c).to_json()}));
+    }
+}
+
+/// replay a stored L1 case: re-run the implementation and compare with the stored accept set
+pub fn replay(v: &Value) -> Result<String, String> {
+    let src = v.get("source").and_then(|x| x.as_str()).ok_or("no source")?;
+    let regs = Regs::from_json(v.get("pre_regs").ok_or("no regs")?);
+    let mut asm = assemble(src).map_err(|e| format!("assembler: {}", e))?;
+    let start = asm.code_label("start").ok_or("no start")?;
+    let line = asm.code.get(start).cloned().ok_or("no emitted line")?;
+    let mut wk = Worker::new();
+    load(&mut wk.vm, &regs);
+    if let Some(pm) = v.get("pre_mem").and_then(|x| x.as_array()) {
+        for e in pm {
+            let a = e[0].as_u64().unwrap_or(0) as usize;
+            let b = e[1].as_u64().unwrap_or(0) as u8;
+            wk.vm.mem[a & 0xFFFFF] = b;
+        }
+    }
+    if let Some(cs) = v.get("call_stack").and_then(|x| x.as_array()) {
+        asm.ictx.call_stack = cs.iter().map(|x| x.as_u64().unwrap_or(0) as usize).collect();
+    }
+    let cap = regs.r[CX] as u32 + 2;
+    let mut iters = 0;
+    let mut out;
+    loop {
+        out = step(&mut wk.vm, &mut asm.ictx, start, &line);
+        iters += 1;
+        if out != StepOut::State(St::Repeat) || iters > cap {
+            break;
+        }
+    }
+    let obs = snap(&wk.vm);
+    let mem = diff_vs_template(&mut wk.vm);
+    let mut report = format!("source {:?}\nemitted '{}'\nobserved: outcome {:?} regs {} mem-diff {:?}\n", src, line, out, obs.to_json(), mem);
+    let mut ok = false;
+    if let Some(acc) = v.get("accept").and_then(|x| x.as_array()) {
+        for (i, e) in acc.iter().enumerate() {
+            let er = Regs::from_json(&e["regs"]);
+            let undef = e["undef_flags"].as_u64().unwrap_or(0) as u16;
+            let dc = e["dc_regs"].as_u64().unwrap_or(0) as u16;
+            let mut same = true;
+            for r in 0..12 {
+                if dc & (1 << r) == 0 && er.r[r] != obs.r[r] {
+                    same = false;
+                }
+            }
+            if (er.r[FLAGS] ^ obs.r[FLAGS]) & !undef != 0 {
+                same = false;
+            }
+            let em: Vec<(u32, u8)> = e["mem"].as_array().map(|a| a.iter().map(|p| (p[0].as_u64().unwrap_or(0) as u32, p[1].as_u64().unwrap_or(0) as u8)).collect()).unwrap_or_default();
+            if em != mem {
+                same = false;
+            }
+            let eo = e["outcome"].as_str().unwrap_or("");
+            let oo = match &out {
+                StepOut::State(St::Next) => eo == "Next",
+                StepOut::State(St::Halt) => eo == "Halt",
+                StepOut::State(St::Print) => eo == "Print",
+                StepOut::State(St::Int(n)) => eo == format!("Int({})", n),
+                StepOut::State(St::Jmp(_)) => eo.starts_with("Jmp"),
+                StepOut::Err(_) => eo == "Error",
+                _ => false,
+            };
+            if !oo {
+                same = false;
+            }
+            report.push_str(&format!("expected[{}]: outcome {} regs {} undef {:04X} mem-diff {:?}\n", i, eo, er.to_json(), undef, em));
+            if same {
+                ok = true;
+            }
+        }
+    }
+    if ok {
+        Ok(report)
+    } else {
+        Err(report)
+    }
+}
